@@ -28,12 +28,16 @@ Record sobs := mkSO { so_api : Z; so_a : Z; so_d : Z; so_p : Z; so_res : Z }.
 
 (* part D: the static protocol on the real provisioning + deprovisioning controllers, the real disruption
    Controller restricted to StaticDrift with the real Queue.StartCommand, faults, limit changes, restarts *)
-Inductive fault := FNone | FTaint | FCreate.   (* no fault / tainting the candidate fails / creating the replacement fails *)
+Inductive fault := FNone | FTaint | FCreate | FStatus.   (* no fault / tainting the candidate fails / creating the
+   replacement fails / the DisruptionReason status patch fails *)
 Inductive dop :=
 | DProv (r : Z) (nfail : nat)
 | DInfUpd (c : name) (del : bool)
 | DDisrupt (r : Z) (budget ncands : nat) (f : fault) (cands : list name)
-| DDeprov (r : Z) (victims gone : list name)     (* victims the code chose; those that left the API at once *)
+| DDeprov (r : Z) (victims gone : list name) (nfail : nat) (* victims the code deleted and marked; those that left the API at
+                                                     once; candidates whose API delete failed *)
+| DSkip                                          (* a reconcile that must not act: NodePool not ready / deleting / not
+                                                     managed, or cluster state not synced (unlaunched claim, partial replay) *)
 | DFinalize (c : name)
 | DLimit (l : Z)
 | DRestart (replay : list (name * bool)).
@@ -48,6 +52,8 @@ Inductive case :=
         (final_remaining : rl) (launched : list rl)                   (* Scheduler.Solve, one pool *)
 | CaseS (limit : Z) (hops : list hop) (sobs : list sobs)              (* static provisioning controller *)
 | CaseD (limit0 : Z) (dops : list dop) (dobs : list sobs) (settle : option (Z * Z * Z)) (* replicas, limit, final API count *)
+| CaseC (limits : option rl) (usage : rl) (nclaims created : nat)     (* Provisioner.CreateNodeClaims: the ExceededBy guard *)
+| CaseR (nodes : list (nstate * rl)) (npres : rl)                     (* Cluster.NodePoolResourcesFor vs the API *)
 | CaseMk (tracked : list name) (hist : list mop)
          (obs : list (name * bool)) (expected : list (name * bool)).  (* Cluster mark/unmark history *)
 
@@ -238,14 +244,15 @@ Definition dstep (l : Z) (s : sys) (o : dop) : sys * bool * Z :=
       let s1 := sstep L s (DriftBegin 1%nat r b n) in
       let g := (List.length (tks s1) - List.length (tks s))%nat in
       match f with
-      | FTaint => (s1, is_nil cands, l)                       (* StartCommand returned before creating anything *)
+      | FTaint | FStatus => (s1, is_nil cands, l)             (* StartCommand returned before creating anything *)
       | _ => (drive_drift L s1 (List.length (tks s)) f cands, Nat.eqb (List.length cands) g, l)
       end
-  | DDeprov r victims gone =>
+  | DDeprov r victims gone nfail =>
       let '(a, _, _) := counts (nps s) 1%nat in
       let s1 := sstep L s (DeprovMark 1%nat r victims) in
       (fold_left (fun s' c => sstep L (sstep L s' (ApiRemove c)) (InfDelete c)) gone s1,
-       Z.of_nat (List.length victims) =? Z.max 0 (a - r), l)
+       Z.of_nat (List.length victims) + Z.of_nat nfail =? Z.max 0 (a - r), l)
+  | DSkip => (s, true, l)
   | DFinalize c => (sstep L (sstep L s (ApiRemove c)) (InfDelete c), true, l)
   | DLimit l' => (s, true, l')
   | DRestart replay =>
@@ -287,6 +294,16 @@ Definition check_case (c : case) : list string :=
   | CaseS limit hops obs => checkS (fun _ => limit) limit (sys0) hops obs
   | CaseD l ops obs settle =>
       checkD l sys0 0 ops obs ++ (if settle_ok settle then [] else ["oracle:not-settled"])
+  | CaseC limits usage n created =>
+      (* every NodeClaim of the pass is created unless the pool's usage already exceeds a limit; then none is *)
+      if Nat.eqb created (if exceeded_by limits usage then 0%nat else n) then [] else ["corr:Create-ExceededBy"]
+  | CaseR nodes npres =>
+      (* the incrementally maintained per-pool sum equals the capacity of the nodes that are not being deleted;
+         resources the map no longer lists are zero *)
+      let ex := active_caps nodes in
+      if forallb (fun kv => snd kv =? sum_get (fst kv) ex) npres &&
+         forallb (fun c => forallb (fun kv => has (fst kv) npres || (sum_get (fst kv) ex =? 0)) c) ex
+      then [] else ["oracle:nodePoolResources"]
   | CaseMk tracked hist obs expected =>
       (* obs: MarkedForDeletion() of every node the real Cluster still tracks; expected: what the harness assumed
          when it computed which nodes count against the limits *)
